@@ -121,6 +121,16 @@ func init() {
 		"every playback entry point is called on every directory state inside the simulation; a panic in the handler or in any goroutine it starts is a violation",
 		"trusted: goroutine panics are captured by the simrt goroutine wrapper; the API recordings endpoints (package api) are not called",
 		60, 3000, "*")
+	w3("C29", "exploration",
+		"seeded recording (as C27, absolute time monotonic) made by the real recorder, closed normally x 20 seeded windows (starting inside segments, in gaps, before and after everything; 0 ms..10 s long); list without and with window, get with fmp4 output; non-trivial = at least one window query answered; distinct = distinct (event-log hash, queries)",
+		"real playback list/get compared with an independent reader of the on-disk segments: spans = runs of consecutive segments of one stream, clipped to the window; get = the recorded samples inside the window, in recorded order, with timestamps relative to the requested start, plus the pre-roll since the last random-access sample",
+		"trusted: the independent box reader; tolerances: one sample duration at span ends, one time-scale tick at window edges; windows starting in a gap between runs only require a well-formed answer",
+		300, 30000)
+	w3("C30", "exploration",
+		"seeded tree: segments recorded by the real recorder plus planted segments of 6 path names (static, nested name, regular-expression, recordDeleteAfter 0, unconfigured) with ages around the retention delay, look-alike files with suffixes (.bak .tmp ~) and foreign files; recordDeleteAfter 10 s..1 day; 2-5 cleaner passes on the simulated clock; non-trivial = at least one pass completed; distinct = distinct (event-log hash, passes)",
+		"real record cleaner on a real directory under the simulated clock; after the last pass every file is classified by the harness from what it planted (never by the decoder under test): deleted only if an expirable segment older than the delay at the last pass, and every such segment is gone",
+		"trusted: pass instants are derived from the cleaner's documented period (half the smallest delay, at most 30 min); 1 ms tolerance at the expiry boundary; configuration reloads while the cleaner runs are not exercised",
+		400, 40000)
 	props["C40"].Race = true
 	props["C40"].Quick, props["C40"].Thorough = 1200, 100000
 	props["C40"].LevelNote += "; metrics scrapes over HTTP and real session kick paths are outside (front-ends are stubs); data races are those the Go race detector reports under the explored schedules"
